@@ -242,7 +242,11 @@ func (t *Object) Resolve(field *Field, args map[string]interface{}) (result inte
 			result = &list
 		}
 	case interfacesStr:
-		result = t.Interfaces
+		// A plain []Type would be handed to the application's AnyResolver
+		// to walk when one is installed. A type list resolves itself.
+		list := &typeList{dict: map[string]Type{}, list: make([]Type, 0, len(t.Interfaces))}
+		list.list = append(list.list, t.Interfaces...)
+		result = list
 	case possibleTypesStr, enumValuesStr, inputFieldsStr, ofTypeStr:
 		// nil result
 	}
